@@ -240,6 +240,12 @@ def run_plan(plan, seed, choices=None):
             down = [ev for ev in w.recorder.events if ev[2] == 'down' and ev[3] == node.addr and ev[0] > seq0]
             newer = [nc for nc in node.conns if not nc.events and nc.label not in control_labels() and nc.label != label and nc.accepted_seq > seq0]
             reacted_t = min([ev[1] for ev in down] + [nc.accepted_t for nc in newer] + [1e18])
+            # a host that the driver had already marked down when the server closed the connection (a pool for it can exist for a while:
+            # a pool creation queued before the failure completes after it) is the reconnector's business, not the heartbeat's
+            before = [ev for ev in w.recorder.events if ev[3] == node.addr and ev[2] in ('up', 'down', 'add') and ev[0] <= seq0]
+            if before and before[-1][2] == 'down':
+                sim.probe('server_closed_connection_of_a_host_already_down')
+                continue
             if reacted_t > limit:
                 V.add('C44/detect', 'closed-idle-connection-owner-not-notified',
                       'node %d closed idle pooled connection %s at %.3f; by %.3f (two heartbeat rounds later) its pool had neither replaced it nor '
